@@ -14,9 +14,18 @@ is "the current output line already carries its prefix", so a Write in state `p`
 `atStart = !p`; a fresh writer has `p = false`.
 
 Histories (last section): `Spec.Indent.history` is what is asked when the caller goes on writing after
-short writes; there the full statement is false of the code (`resume_spec_fails`, finding D20-M1).
+short writes: the line state after a short write is the one at the cut (`Spec.Indent.cutState`).  The
+history stage of corr-c20 found that the code kept the state of the END of the argument instead
+(D20-M1: `Write("ab\n")` cut after `--a`, then `Write("b\n")`, gave `--a--b\n`); repaired in /repo
+8883425 (`partialAfter`), mirrored in `Model.Indent.partialAfter`.  Now proved in full: `resume_spec`
+(the writer follows the specification of histories — bytes, counts, errors, line states — on every
+history, up to its first cut inside a prefix, after which nothing is asked).  The former refutation
+`resume_spec_fails` and the restricted `resume_spec_partial` are gone (the latter is subsumed).
+`stateOfCut` turns the specification's state after a call into the writer's bit: `some a ↦ !a`
+(`partial` = "not at a line start"), and `none` (cut inside a prefix) `↦ false`, which is what
+`partialAfter` answers there.
 
-All other statements hold for every prefix, text, chunking and stop position; hypotheses appear only
+All statements hold for every prefix, text, chunking and stop position; hypotheses appear only
 where the Go code itself branches (`len(buf) == 0` returns before the underlying writer is called).
 The model's `write` describes `(*iw).Write`, which exists only for a non-empty prefix
 (`NewWriter(w, "")` returns `w` itself); the theorems do not need that restriction, because with
@@ -25,9 +34,9 @@ an empty prefix the rendering is the text itself (`render_empty_prefix`).
 namespace Goyang.Props.C20
 open Goyang.Model.Indent
 open Goyang.Spec.Indent (tagged render callerBytesIn atStartAfter nestedRender cutState history observed
-  cutsAtEndState)
+  uptoBrokenCut)
 open Goyang.Lemmas.Indent (join_write render_append atStartAfter_append callerBytesIn_le
-  callerBytesIn_min render_getLast? tagged_append countP_tagged write_none_eq write_some_eq)
+  callerBytesIn_min render_getLast? tagged_append countP_tagged write_none_eq write_some_eq stateOfCut)
 
 /-! ### one-shot `indent.String` / `indent.Bytes` -/
 
@@ -174,7 +183,9 @@ its first `k` bytes; the count returned is exactly the number of the caller's by
 prefix bytes are not counted; it is never negative and never more than the argument; the error is
 passed on.  `k` is unrestricted: beyond the length of what is handed down it behaves as that length.
 (The model computes the count over `Int`, as the Go code computes over `int`, with `remain` going
-below zero when the cut falls inside a prefix: non-negativity is proved here, not assumed by a type.) -/
+below zero when the cut falls inside a prefix: non-negativity is proved here, not assumed by a type.)
+Afterwards the writer's line state is the one at the cut (`cutState`; unchanged when nothing was
+taken; "at a line start" after a cut inside a prefix), and `partialAfter` indexes no slice out of range. -/
 theorem write_short_count (pre : Bytes) (p : Bool) (buf : Bytes) (h : buf ≠ []) (k : Nat) :
     (write pre p buf (some k)).handed = render pre (!p) buf ∧
     (write pre p buf (some k)).reached = (render pre (!p) buf).take k ∧
@@ -184,11 +195,12 @@ theorem write_short_count (pre : Bytes) (p : Bool) (buf : Bytes) (h : buf ≠ []
     0 ≤ (write pre p buf (some k)).n ∧
     (write pre p buf (some k)).n ≤ buf.length ∧
     (write pre p buf (some k)).err = true ∧
-    (write pre p buf (some k)).partial_ = !(atStartAfter (!p) buf) := by
+    (write pre p buf (some k)).partial_ = stateOfCut (cutState pre (!p) buf k) ∧
+    (write pre p buf (some k)).crash = false := by
   have hc := callerBytesIn_min pre (!p) buf k
   have hle := callerBytesIn_le pre (!p) buf k
   rw [write_some_eq pre p h k]
-  refine ⟨rfl, rfl, ?_, rfl, ?_, ?_, rfl, rfl⟩
+  refine ⟨rfl, rfl, ?_, rfl, ?_, ?_, rfl, rfl, rfl⟩
   · simp only [hc]
   · simp only; omega
   · simp only; omega
@@ -237,8 +249,15 @@ example : writes [62, 62] false [([97, 98], none), ([99, 100, 10, 101, 102], som
     ([62, 62, 97, 98, 99, 100, 10, 62], [(2, false), (3, true)]) := by decide
 example : writes [62, 62] false [([97, 98], none), ([99, 100, 10, 101, 102], some 6)] =
     ([62, 62, 97, 98, 99, 100, 10, 62, 62, 101], [(2, false), (4, true)]) := by decide
+/-- a cut inside the prefix: the line has not got its prefix (`partialAfter` answers false) -/
 example : write [62, 62] false [97, 10, 98] (some 1) =
-    { partial_ := true, handed := [62, 62, 97, 10, 62, 62, 98], reached := [62], n := 0, err := true } := by decide
+    { partial_ := false, handed := [62, 62, 97, 10, 62, 62, 98], reached := [62], n := 0, err := true } := by decide
+/-- exactly after the prefix / after `a` / after the line feed / nothing taken (state kept) -/
+example : (write [62, 62] false [97, 10, 98] (some 2)).partial_ = true ∧
+    (write [62, 62] false [97, 10, 98] (some 3)).partial_ = true ∧
+    (write [62, 62] false [97, 10, 98] (some 4)).partial_ = false ∧
+    (write [62, 62] false [97, 10, 98] (some 0)).partial_ = false ∧
+    (write [62, 62] true [97, 10, 98] (some 0)).partial_ = true := by decide
 example : callerBytesIn [62, 62] false [99, 100, 10, 101, 102] 4 = 3 := by decide
 
 /-! ### histories: the caller goes on writing after a short write
@@ -246,11 +265,7 @@ example : callerBytesIn [62, 62] false [99, 100, 10, 101, 102] 4 = 3 := by decid
 `Spec.Indent.history` says what the property asks when the underlying writer cuts Writes short and
 the caller goes on (resuming with the unwritten remainder, or with anything else): the caller bytes
 accepted in successive calls are rendered as one text, so after a short write the line state is the
-one AT THE CUT (`Spec.Indent.cutState`).  The Go code records the state of the END of the argument
-before it calls the underlying writer (`write_short_count`, last clause).  The two differ whenever
-the cut separates bytes of different line state: the full statement is false of the code
-(`resume_spec_fails`, known finding D20-M1, replayed on the real code by corr-c20), and holds on the
-histories whose cuts fall where the state is that of the end of the argument (`resume_spec_partial`). -/
+one AT THE CUT (`Spec.Indent.cutState`).  After a cut inside a prefix nothing is asked. -/
 
 /-- The specification of histories, on histories without a short write, is the specification of
 streams: the rendering of the concatenated text, every count the length of its argument. -/
@@ -265,61 +280,80 @@ theorem history_success (pre : Bytes) (a : Bool) (chunks : List Bytes) :
     simp only [List.map_cons, history, observed, List.flatten_cons, render_append, this.1, this.2,
       List.map_cons]
 
-/-- The full statement — the writer behaves as the specification of histories asks, whatever the
-underlying writer cuts short and however the caller goes on — is FALSE of the code: with prefix
-`--`, `Write("ab\n")` cut after `--a` returns `(1, err)`; the caller resumes with `Write("b\n")` and
-the underlying writer ends up with `--a--b\n`, a prefix in the middle of the open line (the
-accepted bytes `ab\n` are rendered `--ab\n`). -/
-theorem resume_spec_fails :
-    ¬ ∀ (pre : Bytes) (cs : List (Bytes × Under)), writes pre false cs = observed (history pre true cs) := by
-  intro h
-  have := h [45, 45] [([97, 98, 10], some 3), ([98, 10], none)]
-  revert this
-  decide
-
-example : writes [45, 45] false [([97, 98, 10], some 3), ([98, 10], none)] =
-    ([45, 45, 97, 45, 45, 98, 10], [(1, true), (2, false)]) := by decide
-example : observed (history [45, 45] true [([97, 98, 10], some 3), ([98, 10], none)]) =
-    ([45, 45, 97, 98, 10], [(1, true), (2, false)]) := by decide
-/-- nothing got through, the caller tries again: the prefix is lost -/
-example : writes [45, 45] false [([97], some 0), ([97], none)] = ([97], [(0, true), (1, false)]) ∧
-    observed (history [45, 45] true [([97], some 0), ([97], none)]) = ([45, 45, 97], [(0, true), (1, false)]) := by decide
-
-/-- What does hold: on the histories in which every cut leaves the line state of the end of the
-cut argument (`cutsAtEndState`: no cut inside a prefix, and e.g. a cut inside the last line of a
-chunk that does not end in a line feed, at or after the end of that line's prefix — the shape of
-a caller resuming `abc` after `--a`), from any writer state, the writer does what the specification of
-histories asks: bytes reaching the underlying writer, counts and errors of all calls, including
-those after the short writes. -/
-theorem resume_spec_partial (pre : Bytes) (p : Bool) (cs : List (Bytes × Under))
-    (h : cutsAtEndState pre (!p) cs) :
-    writes pre p cs = observed (history pre (!p) cs) := by
+/-- The writer follows the specification of histories, in full: for every prefix, writer state and
+history (any Writes, any of them cut short by the underlying writer at any offset, the caller going
+on with anything), on the part of the history the specification speaks about (`uptoBrokenCut`: all of
+it, or up to and including the first cut inside a prefix), the bytes that reach the underlying
+writer, the count and the error of every call — those after short writes included — and the writer's
+line state after every call are the ones `Spec.Indent.history` gives. -/
+theorem resume_spec (pre : Bytes) (p : Bool) (cs : List (Bytes × Under)) :
+    writes pre p (uptoBrokenCut pre (!p) cs) = observed (history pre (!p) cs) ∧
+    trace pre p (uptoBrokenCut pre (!p) cs) = (history pre (!p) cs).2.map (fun r => stateOfCut r.2.2) := by
   induction cs generalizing p with
-  | nil => simp [writes, history, observed]
+  | nil => simp [writes, trace, history, observed, uptoBrokenCut]
   | cons c cs ih =>
     obtain ⟨buf, u⟩ := c
     cases u with
     | none =>
-      simp only [cutsAtEndState] at h
-      have := ih (!(atStartAfter (!p) buf)) (by simpa using h)
+      have := ih (!(atStartAfter (!p) buf))
       simp only [Bool.not_not, observed] at this
-      simp only [writes, write_none_eq, history, observed, this, List.map_cons]
+      simp only [uptoBrokenCut, writes, trace, write_none_eq, history, observed, this.1, this.2,
+        List.map_cons, stateOfCut, and_self]
     | some k =>
       by_cases hb : buf = []
       · subst hb
-        simp only [cutsAtEndState, List.isEmpty_nil, if_true] at h
-        have := ih p h
+        have := ih p
         simp only [observed] at this
-        simp [writes, write, history, observed, this]
-      · simp only [cutsAtEndState, List.isEmpty_iff, hb, if_false] at h
-        have := ih (!(atStartAfter (!p) buf)) (by simpa using h.2)
-        simp only [Bool.not_not, observed] at this
-        simp only [writes, write_some_eq pre p hb k, history, List.isEmpty_iff, hb, if_false, h.1,
-          observed, this, List.map_cons]
+        simp [uptoBrokenCut, writes, trace, write, history, observed, this.1, this.2, stateOfCut]
+      · cases hc : cutState pre (!p) buf k with
+        | none =>
+          simp [uptoBrokenCut, writes, trace, write_some_eq pre p hb k, history, observed, hb, hc,
+            stateOfCut]
+        | some a' =>
+          have := ih (!a')
+          simp only [Bool.not_not, observed] at this
+          simp only [uptoBrokenCut, writes, trace, write_some_eq pre p hb k, history, List.isEmpty_iff,
+            hb, if_false, hc, observed, this.1, this.2, List.map_cons, stateOfCut, and_self]
 
-example : cutsAtEndState [45, 45] true [([97, 98, 99], some 3), ([98, 99, 10], none)] := by
-  simp only [cutsAtEndState]; decide
-example : writes [45, 45] false [([97, 98, 99], some 3), ([98, 99, 10], none)] =
-    ([45, 45, 97, 98, 99, 10], [(1, true), (3, false)]) := by decide
+/-- The part of a history the specification speaks about has the same specification as the whole. -/
+theorem history_upto (pre : Bytes) (a : Bool) (cs : List (Bytes × Under)) :
+    history pre a (uptoBrokenCut pre a cs) = history pre a cs := by
+  induction cs generalizing a with
+  | nil => simp [uptoBrokenCut]
+  | cons c cs ih =>
+    obtain ⟨buf, u⟩ := c
+    cases u with
+    | none => simp only [uptoBrokenCut, history, ih]
+    | some k =>
+      by_cases hb : buf = []
+      · subst hb; simp [uptoBrokenCut, history, ih]
+      · cases hc : cutState pre a buf k with
+        | none => simp [uptoBrokenCut, history, hb, hc]
+        | some a' => simp [uptoBrokenCut, history, hb, hc, ih]
+
+/-- Without a cut inside a prefix the whole history is specified, and followed. -/
+theorem resume_spec_unbroken (pre : Bytes) (p : Bool) (cs : List (Bytes × Under))
+    (h : uptoBrokenCut pre (!p) cs = cs) :
+    writes pre p cs = observed (history pre (!p) cs) := by
+  have := (resume_spec pre p cs).1
+  rwa [h] at this
+
+/-- the witness of the former defect: `Write("ab\n")` cut after `--a`, resumed with `Write("b\n")` -/
+example : writes [45, 45] false [([97, 98, 10], some 3), ([98, 10], none)] =
+    ([45, 45, 97, 98, 10], [(1, true), (2, false)]) := by decide
+example : observed (history [45, 45] true [([97, 98, 10], some 3), ([98, 10], none)]) =
+    ([45, 45, 97, 98, 10], [(1, true), (2, false)]) := by decide
+example : uptoBrokenCut [45, 45] true [([97, 98, 10], some 3), ([98, 10], none)] =
+    [([97, 98, 10], some 3), ([98, 10], none)] := by decide
+/-- nothing got through, the caller tries again: the prefix is there -/
+example : writes [45, 45] false [([97], some 0), ([97], none)] = ([45, 45, 97], [(0, true), (1, false)]) := by decide
+/-- a cut at a line end inside the argument, and one exactly after a prefix -/
+example : writes [45, 45] false [([97, 10, 98], some 4), ([98], none)] =
+    ([45, 45, 97, 10, 45, 45, 98], [(2, true), (1, false)]) := by decide
+example : writes [45, 45] false [([97, 10, 98], some 6), ([98], none)] =
+    ([45, 45, 97, 10, 45, 45, 98], [(2, true), (1, false)]) := by decide
+/-- a cut inside a prefix: the history is specified up to that call only -/
+example : uptoBrokenCut [45, 45] true [([97, 10, 98], some 5), ([98], none)] = [([97, 10, 98], some 5)] := by decide
+example : trace [45, 45] false [([97, 10, 98], some 5)] = [false] := by decide
 
 end Goyang.Props.C20
